@@ -83,6 +83,9 @@ func judgePaused(c duo.Case) *pbt.Verdict {
 		b2 := *r.B
 		b2.Root = duo.RootOf(r.B, c.Reqs[i].Root)
 		full := dagen.RefFull(&b2, dagen.Canonical(c.Sel.Node()))
+		if full.Err != nil {
+			continue // (traversal larger than the generated domain: no complete truth to compare with)
+		}
 		ok := map[string]bool{}
 		for _, vis := range full.Visits {
 			ok[vis.Key()] = true
